@@ -65,6 +65,11 @@ def wf_conds(v, run):
         out.append(ty.size(t) >= 0)
         kd = z3.FreshConst(ty.k.sort(), "k")
         out.append(z3.ForAll([kd], z3.Implies(z3.Select(ty.has(t), kd), ty.size(t) >= 1)))
+        if ty.ordered:
+            # the insertion order lists keys of the dict (true of every Python dict; kept by every operation of the model:
+            # a new key is appended when it is stored, a removed key is taken out of the order)
+            q = z3.FreshConst(z3.IntSort(), "oq")
+            out.append(z3.ForAll([q], z3.Implies(z3.And(0 <= q, q < z3.Length(ty.order(t))), z3.Select(ty.has(t), ty.order(t)[q]))))
     elif isinstance(ty, TSet):
         out.append(ty.size(t) >= 0)
         # finite-set cardinality facts (true of every Python set): a member implies size >= 1
